@@ -11,34 +11,8 @@ UNIT = dict(
     items=[
         dict(raw="""pub assume_specification<T: Clone> [<[T]>::fill] (s: &mut [T], v: T)
     ensures final(s)@.len() == old(s)@.len(), forall|i: int| 0 <= i < old(s)@.len() ==> #[trigger] final(s)@[i] == v;
-pub open spec fn rsum(s: Seq<f64>, k: int) -> real decreases k {
-    if k <= 0 { 0real } else { rsum(s, k - 1) + rv(s[k - 1]) }
-}
-pub proof fn lemma_fsum_rsum(s: Seq<f64>, k: int)
-    requires 0 <= k <= s.len(),
-    ensures rv(fsum(s, k)) == rsum(s, k),
-    decreases k
-{
-    broadcast use ideal;
-    ax_rv_sum_init();
-    if k > 0 { lemma_fsum_rsum(s, k - 1); }
-}
-// sum of x_i / n over the first k entries equals (sum of x_i) / n
-pub proof fn lemma_rsum_div(a: Seq<f64>, b: Seq<f64>, n: real, k: int)
-    requires 0 <= k <= a.len(), a.len() == b.len(), n != 0real, forall|i: int| 0 <= i < a.len() ==> rv(#[trigger] b[i]) == rv(a[i]) / n,
-    ensures rsum(b, k) == rsum(a, k) / n,
-    decreases k
-{
-    if k <= 0 {
-        assert(0real / n == 0real) by(nonlinear_arith) requires n != 0real;
-    } else {
-        lemma_rsum_div(a, b, n, k - 1);
-        assert(rv(b[k - 1]) == rv(a[k - 1]) / n);
-        assert(rsum(b, k) == rsum(b, k - 1) + rv(b[k - 1]));
-        assert(rsum(a, k) == rsum(a, k - 1) + rv(a[k - 1]));
-        assert(rsum(a, k - 1) / n + rv(a[k - 1]) / n == (rsum(a, k - 1) + rv(a[k - 1])) / n) by(nonlinear_arith) requires n != 0real;
-    }
-}"""),
+"""),
+        dict(raw=open(__file__.rsplit("/units/", 1)[0] + "/prelude/rsum_lemmas.rs").read()),
         dict(file="src/solve/data.rs", path="fn avg_strat", obligation="C05.V.avg_strat", n_loops=1,
              rules=["R3", "R1", "R7", "R9", "R12", "R10"],
              contract="""requires
